@@ -12,6 +12,7 @@ from dask_expr._expr import (
     Blockwise,
     Expr,
     Projection,
+    _is_strictly_increasing,
     make_meta,
     plain_column_projection,
 )
@@ -106,6 +107,15 @@ class ResampleAggregation(Blockwise):
     @functools.cached_property
     def _meta(self):
         return self.frame._meta
+
+    def _divisions(self):
+        # The output divisions (the labels of the bins), not the divisions of
+        # the frame that was repartitioned along the bin edges
+        left = list(self.divisions_left.iterable)
+        if not _is_strictly_increasing(left):
+            # reordered or repeated partitions (``_select_partitions``)
+            return (None,) * (len(left) + 1)
+        return (*left, self.divisions_right.iterable[-1])
 
     def _blockwise_arg(self, arg, i):
         if isinstance(arg, BlockwiseDep):
